@@ -927,6 +927,10 @@ where
                     return Err(ActorErr::Cancelled);
                 }
             }
+        } else {
+            // A signaled actor did not shut down cleanly: as documented on
+            // `SupervisionEvent::ActorTerminated`, its (possibly half-updated) state is not captured.
+            return Err(ActorErr::Cancelled);
         }
 
         Ok(exit_reason)
